@@ -170,7 +170,7 @@ small_free_memory_list::small_free_memory_list(small_free_memory_list&& other) n
   alloc_chunk_(&base_),
   dealloc_chunk_(&base_)
 {
-    if (!other.empty())
+    if (other.base_.next != &other.base_) // other owns chunks (it may still have no free node)
     {
         base_.next             = other.base_.next;
         base_.prev             = other.base_.prev;
@@ -179,13 +179,13 @@ small_free_memory_list::small_free_memory_list(small_free_memory_list&& other) n
 
         other.base_.next = &other.base_;
         other.base_.prev = &other.base_;
-        other.capacity_  = 0u;
     }
     else
     {
         base_.next = &base_;
         base_.prev = &base_;
     }
+    other.capacity_ = 0u;
 }
 
 void foonathan::memory::detail::swap(small_free_memory_list& a, small_free_memory_list& b) noexcept
@@ -193,7 +193,11 @@ void foonathan::memory::detail::swap(small_free_memory_list& a, small_free_memor
     auto b_next = b.base_.next;
     auto b_prev = b.base_.prev;
 
-    if (!a.empty())
+    // whether the lists own chunks (they may still have no free node)
+    auto a_has_chunks = a.base_.next != &a.base_;
+    auto b_has_chunks = b_next != &b.base_;
+
+    if (a_has_chunks)
     {
         b.base_.next       = a.base_.next;
         b.base_.prev       = a.base_.prev;
@@ -206,7 +210,7 @@ void foonathan::memory::detail::swap(small_free_memory_list& a, small_free_memor
         b.base_.prev = &b.base_;
     }
 
-    if (!b.empty())
+    if (b_has_chunks)
     {
         a.base_.next       = b_next;
         a.base_.prev       = b_prev;
